@@ -29,7 +29,7 @@ ASSUMPTIONS = [
     "fitted third-party estimator objects held by surrogate samplers are excluded from the canonical state",
     "Python scalars compare with == (True == 1, 3 == 3.0); list vs tuple is not a difference",
 ]
-REQUIRED_COUNTERS = {"second_restores_of_the_same_folder": 60, "calibrators_without_saving_folder": 6, "convergence_precision_zero": 4, "real_data_with_nonfinite_entries": 4, "many_parameter_cases": 8, "relative_folder_cases": 10, "restores_compared": 60, "tuple_roundtrips_json": 40, "tuple_roundtrips_sqlite": 40, "prepopulated_folder": 15,
+REQUIRED_COUNTERS = {"second_restores_of_the_same_folder": 60, "calibrators_without_saving_folder": 6, "convergence_precision_zero": 2, "real_data_with_nonfinite_entries": 4, "many_parameter_cases": 8, "relative_folder_cases": 10, "restores_compared": 60, "tuple_roundtrips_json": 40, "tuple_roundtrips_sqlite": 40, "prepopulated_folder": 15,
                      "no_batch_yet": 3, "after_set_samplers": 3, "convergence_stop": 3, "rl_scheduler": 3}
 SHARDS = {"quick": 16, "thorough": 16}
 SHARD_WATCHDOG = {"quick": 1500, "thorough": 10800}
